@@ -265,6 +265,14 @@ class Sim:
         else:
             drv = simopt.RealDriver(st['seed'], self.stats['probes'])
         self.shape.append((front, st['driver']))
+        size = {'max': 0.0}
+
+        def watch():
+            z = self.lens.surface_group.positions[1:]
+            z = np.abs(z[np.isfinite(z)])
+            if z.size:
+                size['max'] = max(size['max'], float(z.max()))
+        drv.after_eval = watch
         kwargs = {'maxiter': st.get('maxiter', 5), 'disp': False}
         if front == 'generic_m':
             kwargs['method'] = st.get('method', 'Nelder-Mead')
@@ -289,8 +297,9 @@ class Sim:
         # values and back; positions are absolute, so the other gaps of the
         # lens were absorbed (1e160 + 27 == 1e160) and nothing can restore
         # them: earlier snapshots are void
-        if any(np.abs(x).max() > 1e7 for x, _ in getattr(drv, 'trace', [])
-               if np.size(x)):
+        if size['max'] > 1e9 * (1 + self.w.model.zscale) or any(
+                np.abs(x).max() > 1e7 for x, _ in getattr(drv, 'trace', [])
+                if np.size(x)):
             self.probe('driver_excursion_to_astronomical_values')
             for sl in self.optimizers:
                 if sl is not None:
